@@ -55,6 +55,12 @@ def core():
     D.append(Def('bytes_edges', utf8=False, subs=[('t', b'\x80')], skips=[R(b'\x80\x80')], variants=[
         Var('T80', [R(b'\x80[0-9]+')]), Var('T7f', [R(b'\x7f+x')]), Var('T81', [R(b'a\x81|\xbf\xc0')]), Var('Tc2', [R(b'\xc2[0-9]')]),
         Var('Tff', [R(b'\xfe\xff?\x00')]), Var('S', [R(b'(?&t)!')]), Var('N', [R(b'[0-9]+')])], tags=('bytes', 'quick')))
+    # a str-mode definition for the long runs (8/16-byte blocks of the fast loops): look-up-table loop tests, a skip loop
+    # in front of a token loop, a shorter match that is a prefix of a longer looping one.  Single-byte classes only: a
+    # loop over multi-byte characters forks per character (lead byte), i.e. exponentially in the length of the run
+    D.append(Def('long_ident', variants=[Var('Ident', [R('[a-zA-Z_][a-zA-Z0-9_]*')]), Var('Eq', [T('==')])], tags=('loop', 'long')))
+    D.append(Def('long_float', variants=[Var('Num', [R('[0-9]+')]), Var('Float', [R('[0-9]+\\.[0-9]+')])], tags=('loop', 'long')))
+    D.append(Def('long_skip', skips=[R(' +')], variants=[Var('X', [T('x')])], tags=('loop', 'long')))
     D.append(Def('look_confirm', variants=[
         Var('Word', [R('[a-z]+(?m:$)')]), Var('Line', [R('[a-z]+\\n')]), Var('Sp', [T(' ')]), Var('If', [R('if(?-u:\\b)')]),
         Var('IfSp', [R('if -')])], tags=('look', 'quick')))
